@@ -37,6 +37,7 @@ PROP_FUNCS = {
     'C15': ['allocations', 'allocate_next', 'add_to_store', 'preallocate'],
     'C06': ['preallocate'],
     'C07': ['apply_single'],
+    'C09': ['logrotate_log_sort'],
 }
 ALL_FUNCS = [s['name'] for s in pytolean.FUNCS]
 
@@ -72,7 +73,7 @@ def _recheck(text):
         bridge += f.read()
     src = ("import SkModel.Gen.PyPrim\nimport SkModel.Runner\nimport SkModel.Since\n"
            "import SkModel.Theorems.C16\nimport SkModel.Proofs.SeekShape\n"
-           "import SkModel.Store\nimport SkModel.Proofs.StoreInv\n"
+           "import SkModel.Store\nimport SkModel.Proofs.StoreInv\nimport SkModel.NameRx\n"
            + _strip_imports(text) + _strip_imports(bridge)
            + ''.join(f"#print axioms Sk.Gen.bridge_{n}\n" for n in ALL_FUNCS))
     out = _lean(src)
